@@ -480,6 +480,33 @@ fn e2e_case(line: &str) -> String {
                 pruned_pack = v.to_hex().to_string()[..8].to_string();
             }
         }
+        // parent whose sub-tree blob was pruned: drop the tree pack holding only a sub-directory's tree
+        let mut pruned_dir: Option<PathBuf> = None;
+        if prune == 2 {
+            let irepo = repo.to_indexed()?;
+            let mut victim = None;
+            let root_pack = irepo.get_index_entry(&snap1.tree)?.pack;
+            let top = irepo.node_from_path(snap1.tree, Path::new("src"))?;
+            if let Some(top_id) = top.subtree {
+                let top_pack = irepo.get_index_entry(&top_id)?.pack;
+                let tree = irepo.get_tree(&top_id)?;
+                let dirs: Vec<&Node> = tree.nodes.iter().filter(|n| n.is_dir() && n.subtree.is_some()).collect();
+                for n in dirs {
+                    let pk = irepo.get_index_entry(&n.subtree.unwrap())?.pack;
+                    if pk != root_pack && pk != top_pack {
+                        victim = Some(pk);
+                        pruned_dir = Some(PathBuf::from(n.name().into_owned()));
+                        break;
+                    }
+                }
+            }
+            repo = irepo.drop_index();
+            if let Some(v) = victim {
+                store.remove(FileType::Pack, &v, true)?;
+                repo.repair_index(&RepairIndexOptions::default(), false)?;
+                pruned_pack = format!("tree:{}", &v.to_hex().to_string()[..8]);
+            }
+        }
         let before = scan_state(&root);
         let nsteps = ed.r.below(7);
         for _ in 0..nsteps { ed.step(stealth); }
@@ -528,7 +555,7 @@ fn e2e_case(line: &str) -> String {
                     let d = compare_dirs(&root, &dst.path().join("src"), CmpOpts { mode: true, mtime: true, dir_mtime: false })?;
                     restore2 = if d.is_empty() { "same".to_string() } else { format!("diff:{}", d[0].replace(' ', "_")) };
                 }
-                Err(e) => restore2 = format!("error:{}", e.replace(' ', "_").chars().take(80).collect::<String>()),
+                Err(e) => restore2 = format!("error:{}", e.replace([' ', '\n'], "_").chars().take(80).collect::<String>()),
             }
             repo
         } else {
@@ -545,15 +572,19 @@ fn e2e_case(line: &str) -> String {
                     let d = compare_dirs(&root, &dst.path().join("src"), CmpOpts { mode: true, mtime: true, dir_mtime: false })?;
                     restore_f = if d.is_empty() { "same".to_string() } else { format!("diff:{}", d[0].replace(' ', "_")) };
                 }
-                Err(e) => restore_f = format!("error:{}", e.replace(' ', "_").chars().take(80).collect::<String>()),
+                Err(e) => restore_f = format!("error:{}", e.replace([' ', '\n'], "_").chars().take(80).collect::<String>()),
             }
         }
         let nfiles = state1.values().filter(|e| e.kind != 1).count();
+        let pruned_dir_untouched = pruned_dir.as_ref().map_or(0, |d| {
+            let same = |m: &BTreeMap<PathBuf, Ent>| -> Vec<(PathBuf, Ent)> { m.iter().filter(|(p, _)| p.starts_with(d)).map(|(p, e)| (p.clone(), e.clone())).collect() };
+            u8::from(same(&before) == same(&state1))
+        });
         Ok(format!(
-            "ok tree_equal={} premise={} stealthy={} saved2={} parents_used={} restore2={} restoreF={} unmod={} changed={} new={} e_unmod={} e_changed={} e_new={} untouched={} nfiles={} f_new={} pruned={} edits={}",
+            "ok tree_equal={} premise={} stealthy={} saved2={} parents_used={} restore2={} restoreF={} unmod={} changed={} new={} e_unmod={} e_changed={} e_new={} untouched={} nfiles={} f_new={} pruned={} pruned_dir_untouched={} edits={}",
             u8::from(snap2.tree == snap_f.tree), u8::from(premise), stealthy, u8::from(saved2), parents_used, restore2, restore_f,
             sum2.files_unmodified, sum2.files_changed, sum2.files_new, e_unmod, e_changed, e_new, untouched, nfiles,
-            sum_f.files_new, pruned_pack, if edits.is_empty() { "none".to_string() } else { edits }
+            sum_f.files_new, pruned_pack, pruned_dir_untouched, if edits.is_empty() { "none".to_string() } else { edits }
         ))
     })();
     match res {
